@@ -37,6 +37,15 @@ def gen_dir(rng, irregular=False):
             if m and rng.random() < 0.15:
                 head, tail = m.group(1), m.group(2)
                 lines[i] = head + tail.replace(" ", "  ", 1)
+        # characters that str.splitlines() treats as line ends but that are NOT line ends of a page (U+2028 as pasted from a
+        # browser - UTF-8 bytes here -, form feed, file separator) inside a word of an item: only "\n" ends a line
+        if rng.random() < 0.35:
+            cand = [i for i, l in enumerate(lines) if re.match(r"[-ox~<>] \S+ \S", l)]
+            if cand:
+                i = cand[0] if rng.random() < 0.7 else rng.choice(cand)
+                head, tail = lines[i].rsplit(" ", 1)
+                if len(tail) >= 2 and "::" not in tail and "[" not in tail:
+                    lines[i] = head + " " + tail[:1] + rng.choice(["\xe2\x80\xa8", "\x0c", "\x1c", "\xe2\x80\xa9"]) + tail[1:]
         text = "\n".join(lines)
         if irregular:
             # irregular spacing after the prefix on some ZID-less items (known finding)
